@@ -198,23 +198,80 @@ def load_known(pid):
     return [x for x in j.get("findings", []) if x.get("property") == pid]
 
 
-_marker = re.compile(r'^<<"([A-Z]+)", "(.*)">>$')
-
-
 def markers(out, kind):
-    """Lines printed by PrintT(<<"KIND", ToJson(x)>>) -> list of parsed JSON values."""
+    """Values printed by PrintT(<<"KIND", ToJson(x)>>) -> list of parsed JSON values.  With several
+    workers the closing ">>" of a line can interleave with other output; the string itself is atomic."""
     res = []
-    for line in out.splitlines():
-        m = _marker.match(line.strip())
-        if m and m.group(1) == kind:
-            s = m.group(2)
-            # TLC prints the string with \" and \\ escapes
-            s = s.replace('\\\\', '\x00').replace('\\"', '"').replace('\x00', '\\')
-            try:
-                res.append(json.loads(s))
-            except ValueError as e:
-                raise Infra("bad %s marker line: %s (%s)" % (kind, line[:200], e))
+    for m in re.finditer(r'<<"%s", "((?:[^"\\]|\\.)*)"' % kind, out):
+        s = m.group(1).replace('\\\\', '\x00').replace('\\"', '"').replace('\x00', '\\')
+        try:
+            res.append(json.loads(s))
+        except ValueError as e:
+            raise Infra("bad %s marker: %s (%s)" % (kind, s[:200], e))
     return res
+
+
+def validate_traces(ctx, module, cfg_tmpl, traces, describe, tag="t", max_reject=8, timeout=1500, heap=None):
+    """Validate traces (list of event lists, concatenated into one ndjson file) with a TLC trace
+    spec whose cfg is cfg_tmpl % filename.  The trace spec prints <<"HWM", highwater, len>> from its
+    POSTCONDITION.  A rejected trace is reported through ctx.violation(describe(i, lineno, event), ..)
+    and validation continues behind it.  Returns (#accepted, #events)."""
+    d = ctx.tladir()
+    accepted = 0
+    nev = sum(len(t) for t in traces)
+    alive = list(range(len(traces)))
+    for attempt in range(max_reject + 1):
+        cur, index = [], []
+        for i in alive:
+            cur += traces[i]
+            index += [i] * len(traces[i])
+        if not cur:
+            break
+        name = "trace.%s.%d.ndjson" % (tag, attempt)
+        write_ndjson(os.path.join(d, name), cur)
+        cfgname = "%s.%s.cfg" % (module, tag)
+        with open(os.path.join(d, cfgname), "w") as f:
+            f.write(cfg_tmpl % name)
+        r = ctx.tlc(module, cfgname, workers=1, timeout=timeout, expect_fail=True, count=False, heap=heap)
+        hw = [x for x in r["out"].splitlines() if x.startswith('<<"HWM"')]
+        if not hw:
+            raise Infra("trace validation produced no verdict:\n" + r["out"][-3000:])
+        hwm = int(hw[-1].split(",")[1])
+        if r["ok"] and hwm == len(cur) + 1:
+            accepted += len(alive)
+            ctx.cov["transitions"] += r["generated"]
+            return accepted, nev
+        if hwm < 1 or hwm > len(cur):
+            raise Infra("inconsistent high-water mark %d of %d\n%s" % (hwm, len(cur), r["out"][-2000:]))
+        badi = index[hwm - 1]
+        lineno = hwm - 1 - index.index(badi)
+        what, replay = describe(badi, lineno, traces[badi][lineno])
+        ctx.violation(what, replay)
+        accepted += alive.index(badi)
+        alive = alive[alive.index(badi) + 1:]
+    else:
+        ctx.log("stopped validating after %d rejected traces" % (max_reject + 1))
+    return accepted, nev
+
+
+def compare_cases(ctx, expected, observed, key, label, is_known=None):
+    """expected: list of {"case":..,"expect":..}; observed: list of {"case":..,"got":..}.
+    Every expected case must be observed with got == expect."""
+    obs = {json.dumps(o["case"], sort_keys=True): o for o in observed}
+    ok = 0
+    for e in expected:
+        k = json.dumps(e["case"], sort_keys=True)
+        if k not in obs:
+            raise Infra("%s: case not evaluated by the driver: %s" % (label, k))
+        got = obs[k].get("got")
+        if got == e["expect"]:
+            ok += 1
+            continue
+        if is_known and is_known(e, obs[k]):
+            continue
+        ctx.violation("%s: case %s: real code returned %s, specification says %s" % (
+            label, k, json.dumps(got)[:300], json.dumps(e["expect"])[:300]), {"case": e["case"], "expect": e["expect"], "got": got})
+    return ok
 
 
 def write_ndjson(path, rows):
